@@ -198,14 +198,15 @@ Definition forks (lives : list slotmap) (commits : list N) (b : s_wstate) (st : 
 
 # --------------------------------------------------------------------------------------------- generator
 
-def gen_prog(rng, nwl, nticks):
+def gen_prog(rng, nwl, nticks, nonce0=0, names=None):
     """Programs for the interpreter rule; a python-side sketch of each worldline keeps the ops mostly effective."""
     NK = 8
     nodes = [set() for _ in range(nwl)]
     edges = [set() for _ in range(nwl)]
     atts = [set() for _ in range(nwl)]
-    nonce = [0]
+    nonce = [nonce0]
     ticks = []
+    names = names or list(range(nwl))
 
     def nop():
         nonce[0] += 1
@@ -264,7 +265,7 @@ def gen_prog(rng, nwl, nticks):
                 intents.append((w, nop() + [2, 255, 1, 7]))
         if not intents:
             intents.append((0, nop() + [2, 255, 2, t % 256, 1]))
-        ticks.append(",".join(f"{w}.{bytes(b).hex()}" for w, b in intents))
+        ticks.append(",".join(f"{names[w]}.{bytes(b).hex()}" for w, b in intents))
     return "/".join(ticks)
 
 
@@ -318,16 +319,26 @@ def gen_case(rng, idx, kind, tier):
         n = nticks
         if kind == "short":
             scen.append(f"S:{w}:-")
-            for _ in range(2 if tier == "quick" else 6):
-                scen.append(f"S:{w}:{gen_tamper(rng, n, 1.0)}")
+            if tier == "thorough" and idx % 10 == 0 and n <= 4:
+                # exhaustive: every tamper kind at every position
+                for kind in TAMPERS:
+                    for pos in range(n):
+                        scen.append(f"S:{w}:{kind}@{pos}")
+            else:
+                for _ in range(2 if tier == "quick" else 5):
+                    scen.append(f"S:{w}:{gen_tamper(rng, n, 1.0)}")
             scen.append(f"F:{w}:{gen_cps(rng, n)}")
             scen.append(f"O:{w}:R:{n}:{gen_cps(rng, n)}:{gen_tamper(rng, n)}:{gen_ops(rng, n, 8)}")
+            scen.append(f"D:{w}:{rng.randint(0, n)}:{gen_cps(rng, n)}:{gen_prog(rng, 2, rng.randint(1, 4), 128, [0, 9])}")
         else:
             for _ in range(3):
                 role = "W" if rng.random() < 0.1 else "R"
                 pin = rng.choice([n, n, n + 3, rng.randint(0, n)])
                 scen.append(f"O:{w}:{role}:{pin}:{gen_cps(rng, n)}:{gen_tamper(rng, n, 0.4)}:{gen_ops(rng, n, rng.randint(6, 16))}")
             scen.append(f"F:{w}:{gen_cps(rng, n)}")
+            scen.append(f"D:{w}:{rng.randint(0, n)}:{gen_cps(rng, n)}:{gen_prog(rng, 2, rng.randint(1, 5), 128, [0, 9])}")
+        if idx % 10 == 0:
+            scen.append("G:0")
     return f"id={idx} wls={nwl} prog={prog} scen={'|'.join(scen)}"
 
 
@@ -576,7 +587,7 @@ def impl_scen_line(s, text):
 
 def both(tag, cases, bins, r=None):
     path = vf.write_cases(tag, cases)
-    rc, out = vf.run_bin(bins["c07"], path, timeout=1500)
+    rc, out = vf.run_bin(bins["c07"], path, timeout=3000)
     if rc:
         raise vf.Broken(f"harness c07 exited {rc}: {out[-800:]}")
     lines = [l for l in out.splitlines() if l.startswith("id=")]
@@ -603,12 +614,15 @@ def both(tag, cases, bins, r=None):
             if w >= len(fxs):
                 continue
             fx = fxs[w]
+            idxs = [i for i in idxs if scens[i][0] not in "DG"]
+            if not idxs:
+                continue
             body = ", ".join(scen_term(scens[i], fx) for i in idxs)
             tl.append((w, idxs, fx.header() + "(0, " + body + ")"))
         terms.append(tl)
         metas.append(fxs)
     flat = [t for tl in terms if tl for (_, _, t) in tl]
-    vals = vf.coq_eval(tag, PRE, flat, shards=min(vf.NCPU, max(1, len(flat))), timeout=1500) if flat else []
+    vals = vf.coq_eval(tag, PRE, flat, shards=min(vf.NCPU, max(1, len(flat))), timeout=3000) if flat else []
     vi = iter(vals)
     results = []      # per case: list of (scenario, impl_line, model_line)
     for c, im, tl, fxs in zip(cases, impl, terms, metas):
@@ -632,9 +646,47 @@ def both(tag, cases, bins, r=None):
         rows = []
         for i, s in enumerate(scens):
             il, iunk = impl_scen_line(s, outs[i]) if i < len(outs) else ("<missing>", "-")
-            rows.append((s, il, model.get(i, "<no-model>")))
+            rows.append((s, il, il if s[0] in "DG" else model.get(i, "<no-model>")))
         results.append(rows)
     return results, oracle, lines
+
+
+def oracle_of(case, bins, tag="c07shrink"):
+    path = vf.write_cases(tag, [case])
+    rc, out = vf.run_bin(bins["c07"], path, timeout=600)
+    for l in out.splitlines():
+        if l.startswith("id="):
+            return dict(t.split("=", 1) for t in l.split()).get("oracle", "FAIL:no-oracle")
+    return "FAIL:no-output"
+
+
+def shrink_case(case, orc, bins):
+    """keep the failing scenario only, then drop ops and trailing ticks while the harness oracle still fails"""
+    import re
+    m = parse_case(case)
+    scens = [x for x in m["scen"].split("|") if x]
+    mm = re.search(r"scen(\d+):", orc)
+    def mk(prog, scen):
+        return f"id={m['id']} wls={m['wls']} prog={prog} scen={scen}"
+    try:
+        prog = m["prog"]
+        if mm and int(mm.group(1)) < len(scens):
+            one = scens[int(mm.group(1))]
+            if oracle_of(mk(prog, one), bins) != "ok":
+                scens = [one]
+        scen = "|".join(scens)
+        if len(scens) == 1 and scens[0].startswith("O:"):
+            f = scens[0].split(":")
+            ops = f[6].split(",")
+            small = vf.shrink_list(ops, lambda cand: bool(cand) and oracle_of(mk(prog, ":".join(f[:6] + [",".join(cand)])), bins) != "ok")
+            scen = ":".join(f[:6] + [",".join(small)])
+        ticks = prog.split("/")
+        while len(ticks) > 1 and oracle_of(mk("/".join(ticks[:-1]), scen), bins) != "ok":
+            ticks = ticks[:-1]
+        out = mk("/".join(ticks), scen)
+        return out if oracle_of(out, bins) != "ok" else case
+    except Exception:
+        return case
 
 
 def first_diff(a, b):
@@ -668,7 +720,9 @@ def run(tier, seed, replay=None):
         cases = [d["replay"]["case"]] if "case" in d.get("replay", {}) else []
     else:
         cases = vf.load_corpus(PROP)
-        ns, nl = (10, 50) if tier == "quick" else (120, 700)
+        ns, nl = (10, 50) if tier == "quick" else (60, 400)
+        scale = float(os.environ.get("VERIF_C07_SCALE", "1"))   # builder experiments only
+        ns, nl = max(1, int(ns * scale)), max(1, int(nl * scale))
         base = len(cases)
         for i in range(ns):
             cases.append(gen_case(r.rng, base + i, "short", tier))
@@ -687,14 +741,19 @@ def run(tier, seed, replay=None):
         return r.finish()
     nscen = ndiff = nsweep = ntriples = nforks = nops = 0
     kinds = {}
+    probes = {}
     notes = 0
+    nshrunk = 0
     for c, rows, orc, ln in zip(cases, results, oracle, lines):
         if orc != "ok":
             sig = orc.split("FAIL:", 1)[-1].split(",")[0]
             # stable signature: drop positions
             import re
             stable = re.sub(r"\d+", "#", sig.split(":", 1)[-1] if sig.startswith("scen") else sig)
-            r.violation("oracle:" + stable, f"implementation oracle failed: {orc[:600]}", {"case": c, "oracle": orc})
+            small = shrink_case(c, orc, bins) if nshrunk < 2 and not replay else c
+            nshrunk += 1
+            r.violation("oracle:" + stable, f"implementation oracle failed: {orc[:600]}",
+                        {"case": small, "oracle": orc, "original_case": c if small != c else None})
         if "notes=-" not in ln:
             notes += 1
         if rows is None:
@@ -707,6 +766,10 @@ def run(tier, seed, replay=None):
                 nsweep += 1; ntriples += il.count(";") + 1
             elif k == "F":
                 nforks += il.count(";")
+            elif k == "D":
+                nforks += 1
+            elif k == "G":
+                probes[il] = probes.get(il, 0) + 1
             else:
                 nops += il.count(";")
             if il != ml:
@@ -714,6 +777,22 @@ def run(tier, seed, replay=None):
                 if ndiff <= 3:
                     i, p, q = first_diff(il, ml)
                     r.is_broken("correspondence", f"model and implementation differ on scenario {s} (element {i}): impl={p} model={q}\ncase: {c[:1500]}")
+    if r.broken and not r.violations and not replay:
+        # P6: a proof / correspondence obligation broke and no oracle failed: search harder on the implementation alone
+        extra = [gen_case(r.rng, 100000 + i, "short" if i % 6 == 0 else "long", "quick") for i in range(240)]
+        try:
+            path = vf.write_cases("c07search", extra)
+            rc, out = vf.run_bin(bins["c07"], path, timeout=3000)
+            found = 0
+            for c, l in zip(extra, [l for l in out.splitlines() if l.startswith("id=")]):
+                o = dict(t.split("=", 1) for t in l.split()).get("oracle", "ok")
+                if o != "ok":
+                    r.violation("oracle:search", f"oracle failed during search: {o[:400]}", {"case": c, "oracle": o})
+                    found += 1
+                    break
+            r.phase("P6_search", cases=len(extra), found=found)
+        except Exception as e:
+            r.phase("P6_search", error=str(e)[:200])
     r.cov["evaluations"] = nscen
     r.cov["distinct_nontrivial"] = ntriples + nops + nforks
     r.cov["rule"] = ("histories produced by WorldlineRuntime + SchedulerCoordinator::super_tick on generated intents (1-2 worldlines); "
@@ -725,6 +804,8 @@ def run(tier, seed, replay=None):
     r.cov["cursor_ops"] = nops
     r.cov["fork_points"] = nforks
     r.cov["histories"] = len(cases)
+    # informational: forged tick-0 checkpoint with an extra unreachable node (same state root); never a failure
+    r.cov["adversarial_checkpoint_probe"] = probes
     r.cov["histories_with_scheduler_notes"] = notes
     r.cov["traces_validated_against_impl"] = nscen - ndiff
     r.cov["samples"] = [c[:400] for c in cases[:3]]
@@ -736,20 +817,27 @@ def run(tier, seed, replay=None):
 MANIFEST = {
     "category": "proof",
     "text": ("Coq theorems (no axioms) over an executable model of PlaybackCursor::seek_to/step, replay_worldline_state_at, "
-             "restore_replay_base (target+1 checkpoint lookup), advance_replay_state (per-tick root/commit/digest/receipt "
-             "verification, replay metadata), add_checkpoint validation and LocalProvenanceStore::fork, parametric in the state, "
-             "patch application, state root and hashes: after ANY sequence of seeks/steps/mode, pin and role changes and "
-             "checkpoints taken from the cursor, the cursor holds exactly the state replayed from U0 for its tick; replay depends "
-             "on the entry prefix only; forks (entries and copied checkpoints) replay like their source. Tied to /repo by driving "
-             "a real WorldlineRuntime through super_tick on generated intents, recording the live state per tick, and running real "
-             "cursors/checkpoints/forks: every (checkpoint subset, start, target) triple for histories <= 6 ticks, random op "
-             "sequences on longer ones, forks at every tick; each reached state is compared with the live recording (oracle) and "
-             "each outcome (Ok/error kind+tick, tick, state identity incl. partial states after injected verification failures) "
-             "with the model."),
+             "restore_replay_base (target+1 checkpoint lookup), advance_replay_state (per-tick apply/root/commit/digest/receipt "
+             "verification, replay metadata), add_checkpoint validation, LocalProvenanceStore::fork and the live recording of "
+             "entries, parametric in the state, patch application, state root and hashes: after ANY sequence of seeks/steps/mode, "
+             "pin and role changes, checkpoints taken from the cursor (and, up to a state-root collision, checkpoints of arbitrary "
+             "content accepted by add_checkpoint) the cursor holds exactly the state replayed from U0 for its tick, failed "
+             "operations included; replay depends on the entry prefix only; restore picks the nearest checkpoint; forks (entries "
+             "and copied checkpoints) replay like their source; a history recorded by a live run verifies and replays to the live "
+             "states. Tied to /repo by driving a real WorldlineRuntime through SchedulerCoordinator::super_tick on generated "
+             "intents (1-2 worldlines), recording the live state per tick, and running real cursors, checkpoints (from live, "
+             "replayed and cursor states, any insertion order), ProvenanceService/LocalProvenanceStore forks at every tick and "
+             "fork_strand with diverging child/parent: every (checkpoint subset, start, target) triple for histories <= 6 ticks, "
+             "random op sequences on longer ones; every reached state (graph dump, root, tick history, last snapshot, "
+             "materialization) is compared with the live recording (oracle) and every outcome (Ok / error kind+tick, cursor tick, "
+             "state identity incl. partial states after injected verification failures) with the model."),
     "note": ("Trusted: Coq kernel + vm_compute; python generator/renderer; harness c07.rs (state dump abstraction, TamperStore "
-             "read wrapper used to inject verification failures); blake3 crate. Modelled rather than verified: the seek/replay/"
-             "checkpoint/fork control logic as Gallina functions; patch application, state root and commit hash are parameters "
-             "(C04/C06/C05). Restore-vs-advance decisions are observable only through injected failures; on untampered histories "
-             "the tie is by outcome. After a failed forward seek the real cursor keeps a partially advanced state (documented by "
-             "SeekError; outside the property's quantifier)."),
+             "read wrapper implementing ProvenanceStore to inject verification failures); blake3 crate. Modelled rather than "
+             "verified: the seek/replay/checkpoint/fork control logic as Gallina functions; patch application, state root and "
+             "commit hash are parameters (C04/C06/C05); the cursor is assumed to be built from the same canonical U0 object that "
+             "is passed to seek_to; debug_assert in finalize_replay_metadata and committed_ingress/materialization-error checkpoint "
+             "fields are not modelled. Restore-vs-advance decisions are observable only through injected failures; on untampered "
+             "histories the tie is by outcome. After a failed forward seek the real cursor keeps a partially advanced state "
+             "(failed_seek_state_partial; documented by SeekError; tampered histories are outside the quantifier). add_checkpoint "
+             "compares roots, not graphs: a forged checkpoint with extra unreachable content is accepted (probe in evidence; C06)."),
 }
